@@ -278,12 +278,20 @@ func vhHost(rec *[]int, a, b int) map[string]interface{} {
 		"IsPos": func(x int) bool { return x > 0 },
 		"Two":   func(x int) (int, int) { return x + 1, x * 2 },
 		"Add":   func(x, y int) int { return x + y },
+		"Sub":   func(x, y int) int { return x - y },
 		"Repeat": func(f func(int) int, n int) int {
 			t := 0
 			for k := 0; k < n; k++ {
 				t = f(t + k)
 			}
 			return t
+		},
+		"Join": func(xs ...fmt.Stringer) {
+			t := len(xs) * 100
+			for _, x := range xs {
+				t += len(x.String())
+			}
+			out(t)
 		},
 		"Write": func(w io.Writer) {
 			n, err := w.Write([]byte{1, 2, 3})
